@@ -267,6 +267,34 @@ def _in_cycle(fn, b):
     return b in fn.reach_from(b, avoid=()) and any(b in fn.reach_from(s) for s in fn.succ[b])
 
 
+def rule_node_type(ctx, prop):
+    """the ignore / range questions are asked about statements, last statements and table fields (and the EOF token) - the
+    nodes whose *leading comments* carry the directives - never about a token or a part of a statement"""
+    rep = Report(prop, "R-SKIP(e)", "check_toggle_formatting / should_format_node are instantiated for Stmt, LastStmt, Field "
+                                    "(or a tuple that starts with one), and for the EOF token only in format_eof")
+    for cfg, prog in ctx.programs.items():
+        n = 0
+        for f in prog.fns("stylua_lib"):
+            for b, t in f.calls():
+                if callee(t) not in (SFN, TOGGLE):
+                    continue
+                n += 1
+                ty = (t.get("rfn") or t.get("fn") or "").split("::<", 1)[-1]
+                ty = ty[:-1] if ty.endswith(">") else ty
+                first = ty.lstrip("(& ").split(",")[0].strip()
+                ok = first in ("full_moon::ast::Stmt", "full_moon::ast::LastStmt", "full_moon::ast::Field", "T", "&T") or \
+                    (first == "full_moon::tokenizer::TokenReference" and f.path == "formatters::general::format_eof") or \
+                    first.startswith("impl ")
+                rep.inst(f"{f.key} {callee(t).split('::')[-1]}::<{ty}>", None, cfg, ok=ok)
+                if not ok:
+                    rep.violation(f"{f.key} directive-question-about {ty}",
+                                  f"{f.path} asks {callee(t).split('::')[-1]} about a `{ty}`: ignore directives live in the "
+                                  f"leading comments of a statement / field, so for this node the answer is always `no directive` "
+                                  f"and `-- stylua: ignore start/end` around it is not honoured", f.loc(t["sp"]), cfg)
+        rep.floor("directive questions", n, 10, cfg)
+    return rep
+
+
 def rule_toggle(ctx, prop):
     rep = Report(prop, "R-SKIP(d)", "wherever should_format_node (or a per-element formatter) is applied along a sequence "
                                     "of statements / fields, the Context was produced by check_toggle_formatting")
